@@ -27,14 +27,31 @@ ThoroughLists == QuickLists \cup {RemotesLocal, RemoteDupOther, <<R11, R12, R21>
 Provisioned(lists) == {S(l, FALSE, p) : l \in lists, p \in BOOLEAN}
 External(lists) == {S(l, TRUE, FALSE) : l \in lists}
 
-QuickScenarios == Provisioned(QuickLists) \cup External({OneLocal, LocalRemote, NoTargets})
-ThoroughScenarios == Provisioned(ThoroughLists) \cup External(ThoroughLists)
-LeaveScenarios == Provisioned({TwoRemotes, RemotesLocal})
+\* histories of lifecycles on one MechanicActor
+One(scns) == {<<s>> : s \in scns}
+Two(a, b) == {<<s, t>> : s \in a, t \in b}
+Three(a, b, c) == {<<s, t, u>> : s \in a, t \in b, u \in c}
+Ext1 == S(OneLocal, TRUE, FALSE)
+ExtLR == S(LocalRemote, TRUE, FALSE)
+P(l) == S(l, FALSE, FALSE)
+ReuseSmall == {Ext1, P(OneLocal), P(TwoLocalPorts), P(LocalRemote)}
+ReuseMore == ReuseSmall \cup {ExtLR, P(TwoRemotes), P(Interleaved), P(RemoteTwoPorts), S(TwoNodesOneEntry, FALSE, TRUE), P(NoTargets)}
+
+QuickScenarios == One(Provisioned(QuickLists) \cup External({OneLocal, LocalRemote, NoTargets}))
+                  \cup Two(ReuseSmall, ReuseSmall) \cup Two({Ext1, P(TwoRemotes)}, {P(TwoRemotes), P(RemoteTwoPorts)})
+                  \cup Three({Ext1}, {P(OneLocal), Ext1}, {P(LocalRemote)})
+ThoroughScenarios == One(Provisioned(ThoroughLists) \cup External(ThoroughLists))
+                     \cup Two(ReuseMore, ReuseMore) \cup Three(ReuseSmall, ReuseSmall, ReuseSmall)
+LiveScenarios == One(Provisioned({OneLocal, TwoLocalPorts, LocalRemote, TwoRemotes, NoTargets}) \cup External({OneLocal}))
+                 \cup Two({Ext1, P(LocalRemote)}, {Ext1, P(LocalRemote), P(TwoRemotes)})
+LeaveScenarios == One(Provisioned({TwoRemotes, RemotesLocal})) \cup Two({Ext1}, {P(TwoRemotes)})
 \* every list of up to 3 targets over 3 hosts x 2 ports
 AllTargets == {T(ip, port) : ip \in 0..2, port \in 1..2}
 AllLists == {<<>>} \cup {<<a>> : a \in AllTargets} \cup {<<a, b>> : a, b \in AllTargets}
 AllLists3 == AllLists \cup {<<a, b, c>> : a, b, c \in AllTargets}
 \* exhaustive family: every list of up to 3 targets (preserve only matters for the clean-up, checked on the smaller family)
-ExhaustiveScenarios == {S(l, FALSE, FALSE) : l \in AllLists3} \cup Provisioned(ThoroughLists) \cup External(ThoroughLists)
-SimScenarios == Provisioned(AllLists \cup ThoroughLists) \cup External({OneLocal, LocalRemote, TwoRemotes})
+ExhaustiveScenarios == One({S(l, FALSE, FALSE) : l \in AllLists3} \cup Provisioned(ThoroughLists) \cup External(ThoroughLists))
+SimSingles == Provisioned(AllLists \cup ThoroughLists) \cup External({OneLocal, LocalRemote, TwoRemotes})
+SimReuse == ReuseMore \cup Provisioned({<<a, b>> : a, b \in {L1, L2, R11, R21}}) \cup External({TwoRemotes})
+SimScenarios == One(SimSingles) \cup Two(SimReuse, SimReuse) \cup Three(ReuseMore, ReuseMore, ReuseMore)
 ====
